@@ -39,6 +39,6 @@ new=sorted(x for x in bad if x.split('::')[-1] not in okn)
 print('failing/timeouts:',sorted(bad)); print('NEWLY FAILING (not on the always_fail/flaky lists):',new)
 PY
 fi
-git checkout -q -- . ; rm -f tests/seeded_demo.rs
+git checkout -q -- . ; rm -f tests/seeded_demo.rs; find /tmp -maxdepth 1 \( -name "walrus*" -o -name ".tmp*" \) -mmin +2 -exec rm -rf {} + 2>/dev/null
 rm -f $S/demo_without.[23].log $S/demo_with.[2345].log
 echo "done" >> $LOG
